@@ -140,7 +140,7 @@ def lockTable : List C13Gen.LockUse := [
   ⟨"core/state_indexed.go", "IndexedState.slock", "s.RLock()", false⟩,
   ⟨"core/state_indexed.go", "IndexedState.uncacheRule", "s.cacheMutex.Lock()", false⟩,
   ⟨"core/state_indexed.go", "IndexedState.uncacheRules", "s.cacheMutex.Lock()", false⟩,
-  ⟨"core/state_linear.go", "LinearState.Add", "s.slock(false)", false⟩,
+  ⟨"core/state_linear.go", "LinearState.Add", "s.slock(false)", true⟩,
   ⟨"core/state_linear.go", "LinearState.Clear", "s.slock(false)", false⟩,
   ⟨"core/state_linear.go", "LinearState.Count", "s.slock(true)", false⟩,
   ⟨"core/state_linear.go", "LinearState.Delete", "s.slock(false)", false⟩,
@@ -500,11 +500,12 @@ def methName : Kind → Meth → String
 def Meth.isWrite : Meth → Bool | .add | .rem => true | _ => false
 
 /-- is the code of the method that is able to panic (anything beyond one map read) executed while its lock is held?
-(`get`: one map read under the lock, expiry runs after the unlock; `LinearState.Add`: PrepareFact runs before the lock,
-two map writes under it; `Count`: `len` of a map) -/
+(`get`: one map read under the lock, expiry runs after the unlock; `LinearState.Add`: PrepareFact runs before the lock, the
+storage call and two map writes under it -- since the repair that moved the storage call into the section, released by
+`defer`; `Count`: `len` of a map) -/
 def panicUnderLock : Kind → Meth → Bool
   | .indexed, .add | .indexed, .rem | .indexed, .search | .indexed, .findRules => true
-  | .linear, .rem | .linear, .search | .linear, .findRules => true
+  | .linear, .add | .linear, .rem | .linear, .search | .linear, .findRules => true
   | _, _ => false
 
 /-- from the extracted table: every lock acquisition of the Go function `fn` has a deferred release -/
